@@ -200,6 +200,13 @@ def _probe_known(ca, fid):
             except ValueError:
                 return True
             return False
+        if fid == "N14b":
+            a = ca.Ace("permit 16.132.4.7 any", platform="ios")
+            try:
+                ca.Ace(a.line, platform="ios")
+            except ValueError:
+                return True
+            return False
         if fid == "N13":
             gs = ca.addrgroups("object-group network G\n description d", platform="ios")
             try:
@@ -243,6 +250,15 @@ def matches_known(ctx, kernel, meta, failure):
             return "N7"
         if cls == "Remark" and r.strip() == "remark" and not meta.get("text", "").strip():
             return "N10"
+        if cls == "Ace":
+            from harness.props import C06
+            # the entry may come out of a container: judge the rendered standard-syntax entry itself
+            toks = r.split()
+            if toks and toks[0].isdigit():
+                toks = toks[1:]
+            if len(toks) >= 4 and toks[0] in ("permit", "deny") and toks[1] == "host" and \
+                    (toks[3] in ("any", "host", "object-group", "addrgroup") or toks[3][0].isdigit() and "." in toks[3]):
+                return "N14b"
         if cls == "AddrGroup" and meta.get("class") == "addrgroups" and len([x for x in r.split("\n") if x.strip()]) == 1:
             return "N13"        # a group without members (only description lines in the configuration)
         if failure.get("platform") == "asa" and ((cls == "AddressAg" and r.strip() == "") or cls == "AddrGroup"):
